@@ -27,9 +27,11 @@
 package c08cell
 
 import (
+	"bytes"
 	"context"
 	"errors"
 	"fmt"
+	"io"
 	"net/http"
 	"os"
 	"runtime"
@@ -111,9 +113,13 @@ func ChanCap(kind string) int {
 type Cell struct {
 	Kind    string
 	Preload bool
-	Limit   int
-	Passes  int
+	Limit   uint64 // any value of the uint options (round 4: also huge ones, "practically unbounded")
+	Passes  uint64
 	N       int // entries; entry i has identity i and tag "t<i>"
+	// round 4
+	Pick []int  // chosencases (http kinds, grpc/json): the ids of the entries whose tag is listed, ascending; nil = no chosencases option
+	Src  string // generic JSON provider: the data source — "" | file, inline (datasource.NewInline / `type: inline`), rs (NewReader over a
+	// ReadSeeker), rsc (NewReader over a ReadSeekCloser), pipe (NewReader over a plain io.Reader: cannot be rewound), buf (NewBuffer: cannot be rewound)
 	Cons    int
 	Cap     int    // drain: cancel at this many acquisitions (0 = never); stall: total number of Acquire calls
 	Junk    bool   // add header / blank lines that are not entries where the format allows it
@@ -510,7 +516,15 @@ func constructCfg(c Cell, path string) (core.Provider, error) {
 	m := map[string]any{"type": cfgType[c.Kind]}
 	switch c.Kind {
 	case KGenJSON:
-		m["source"] = map[string]any{"type": "file", "path": path}
+		switch c.Src {
+		case "", "file":
+			m["source"] = map[string]any{"type": "file", "path": path}
+		case "inline":
+			_, content := FileFor(c)
+			m["source"] = map[string]any{"type": "inline", "data": content}
+		default:
+			return nil, fmt.Errorf("harness: source %q cannot be written in a config", c.Src)
+		}
 	case KURIs:
 		uris := inlineURIs(c)
 		l := make([]any, len(uris))
@@ -522,13 +536,20 @@ func constructCfg(c Cell, path string) (core.Provider, error) {
 		m["file"] = path
 	}
 	if c.Limit != 0 {
-		m["limit"] = c.Limit
+		m["limit"] = cfgNum(c.Limit)
 	}
 	if c.Passes != 0 {
-		m["passes"] = c.Passes
+		m["passes"] = cfgNum(c.Passes)
 	}
 	if c.Preload {
 		m["preload"] = true
+	}
+	if c.Pick != nil {
+		l := []any{}
+		for _, t := range c.chosenTags() {
+			l = append(l, t)
+		}
+		m["chosencases"] = l
 	}
 	var pool struct {
 		Provider core.Provider `config:"ammo"`
@@ -542,7 +563,26 @@ func constructCfg(c Cell, path string) (core.Provider, error) {
 	return pool.Provider, nil
 }
 
-func construct(c Cell, path string) (core.Provider, error) {
+// cfgNum: a number as a YAML / JSON front-end hands it to the config decoder (int when it fits, else uint64)
+func cfgNum(x uint64) any {
+	if x <= 1<<62 {
+		return int(x)
+	}
+	return x
+}
+
+// intBound: a bound of a kind whose option is an `int`
+func intBound(x uint64) (int, error) {
+	if x > 1<<63-1 {
+		return 0, fmt.Errorf("harness: %d does not fit the int option of this kind", x)
+	}
+	return int(x), nil
+}
+
+func construct(c Cell, path string, cio *cellIO) (core.Provider, error) {
+	if c.Pick != nil && !(IsHTTP(c.Kind) || c.Kind == KGRPCJSON) {
+		return nil, fmt.Errorf("harness: kind %s has no chosencases option", c.Kind)
+	}
 	if c.Via == "cfg" {
 		return constructCfg(c, path)
 	}
@@ -553,6 +593,9 @@ func construct(c Cell, path string) (core.Provider, error) {
 			Limit:   uint(c.Limit),
 			Passes:  uint(c.Passes),
 			Preload: c.Preload,
+		}
+		if c.Pick != nil {
+			conf.ChosenCases = c.chosenTags()
 		}
 		switch c.Kind {
 		case KURI:
@@ -570,19 +613,115 @@ func construct(c Cell, path string) (core.Provider, error) {
 		}
 		return httpprov.NewProvider(FS, conf)
 	case KGRPCJSON:
-		return grpcjson.NewProvider(FS, grpcjson.Config{File: path, Limit: c.Limit, Passes: c.Passes}), nil
+		l, err := intBound(c.Limit)
+		if err != nil {
+			return nil, err
+		}
+		ps, err := intBound(c.Passes)
+		if err != nil {
+			return nil, err
+		}
+		gc := grpcjson.Config{File: path, Limit: l, Passes: ps}
+		if c.Pick != nil {
+			gc.ChosenCases = c.chosenTags()
+		}
+		return grpcjson.NewProvider(FS, gc), nil
 	case KHTTPScn:
 		return scnhttp.NewProvider(FS, scenario.ProviderConfig{File: path, Limit: uint(c.Limit), Passes: uint(c.Passes)})
 	case KGRPCScn:
 		return scngrpc.NewProvider(FS, scenario.ProviderConfig{File: path, Limit: uint(c.Limit), Passes: uint(c.Passes)})
 	case KGenJSON:
 		conf := coreprov.DefaultJSONProviderConfig()
-		conf.Decode.Source = datasource.NewFile(FS, datasource.FileConfig{Path: path})
-		conf.Decode.Limit = c.Limit
-		conf.Decode.Passes = c.Passes
+		l, err := intBound(c.Limit)
+		if err != nil {
+			return nil, err
+		}
+		ps, err := intBound(c.Passes)
+		if err != nil {
+			return nil, err
+		}
+		src, err := genSource(c, path, cio)
+		if err != nil {
+			return nil, err
+		}
+		conf.Decode.Source = src
+		conf.Decode.Limit = l
+		conf.Decode.Passes = ps
 		return coreprov.NewJSONProvider(func() core.Ammo { return &GenAmmo{} }, conf), nil
 	}
 	return nil, fmt.Errorf("unknown kind %q", c.Kind)
+}
+
+// ---------------------------------------------------------------- data sources of the generic JSON provider (round 4)
+
+// Seekable: can the data source of the cell be read more than once?  (file, inline data and readers that can Seek; a
+// plain io.Reader and a bytes.Buffer cannot be rewound: ioutil2.NewMultiPassReader then reads them once.)
+func Seekable(src string) bool { return src != "pipe" && src != "buf" }
+
+// InMemory: the source of the cell is not a file of the counting filesystem
+func InMemory(c Cell) bool { return c.Kind == KGenJSON && c.Src != "" && c.Src != "file" }
+
+// memReader reads the cell's data from memory through the cell's counting / fault hooks (what the counting file does
+// for the file sources).
+type memReader struct {
+	r  *bytes.Reader
+	io *cellIO
+}
+
+func (m *memReader) Read(p []byte) (int, error) {
+	killed, fail := m.io.op()
+	if killed {
+		return 0, errKilled
+	}
+	if fail {
+		return 0, errInjRead
+	}
+	return m.r.Read(p)
+}
+
+// memSeeker: an io.ReadSeeker that is no io.Closer
+type memSeeker struct{ *memReader }
+
+func (m memSeeker) Seek(off int64, whence int) (int64, error) {
+	killed, fail := m.io.op()
+	if killed {
+		return 0, errKilled
+	}
+	if fail {
+		return 0, errInjRead
+	}
+	return m.r.Seek(off, whence)
+}
+
+// memSeekCloser: io.ReadSeeker + io.Closer
+type memSeekCloser struct{ memSeeker }
+
+func (m memSeekCloser) Close() error {
+	if m.io.cfail {
+		m.io.chit.Store(true)
+		return errInjClose
+	}
+	return nil
+}
+
+func genSource(c Cell, path string, cio *cellIO) (core.DataSource, error) {
+	_, content := FileFor(c)
+	mr := &memReader{r: bytes.NewReader([]byte(content)), io: cio}
+	switch c.Src {
+	case "", "file":
+		return datasource.NewFile(FS, datasource.FileConfig{Path: path}), nil
+	case "inline":
+		return datasource.NewInline(datasource.InlineConfig{Data: content}), nil
+	case "rs":
+		return datasource.NewReader(memSeeker{mr}), nil
+	case "rsc":
+		return datasource.NewReader(memSeekCloser{memSeeker{mr}}), nil
+	case "pipe":
+		return datasource.NewReader(io.Reader(mr)), nil
+	case "buf":
+		return datasource.NewBuffer(bytes.NewBufferString(content)), nil
+	}
+	return nil, fmt.Errorf("harness: unknown source %q", c.Src)
 }
 
 type httpGunAmmo interface {
@@ -743,20 +882,80 @@ func tailVerdict(seq []int, n, cons int, complete bool) bool {
 	return odd == 1
 }
 
-// Expected is min+(limit, passes*n); ok=false for an unbounded cell.  Only used to choose how long to wait.
-func Expected(limit, passes, n int) (int, bool) {
+// Huge is what Expected saturates at: a bound above it is "practically unbounded" for everything the harness does with
+// the number (how long to wait, where to cut).
+const Huge = 1 << 40
+
+// Expected is min+(limit, passes*n), saturated at Huge; ok=false for an unbounded cell.  Only used to choose how long to
+// wait (the Lean side computes the exact number).
+func Expected(limit, passes uint64, n int) (int, bool) {
+	sat := func(x uint64) int {
+		if x > Huge {
+			return Huge
+		}
+		return int(x)
+	}
+	pn := uint64(Huge)
+	if n > 0 && passes <= Huge/uint64(n) {
+		pn = passes * uint64(n)
+	}
 	switch {
 	case limit == 0 && passes == 0:
 		return 0, false
 	case passes == 0:
-		return limit, true
+		return sat(limit), true
 	case limit == 0:
-		return passes * n, true
+		return sat(pn), true
 	}
-	if limit < passes*n {
-		return limit, true
+	if limit < pn {
+		return sat(limit), true
 	}
-	return passes * n, true
+	return sat(pn), true
+}
+
+// Eff is the number of entries of one pass: the chosen ones when the cell has a chosencases option.
+func (c Cell) Eff() int {
+	if c.Pick != nil {
+		return len(c.Pick)
+	}
+	return c.N
+}
+
+// Order lists the identities of the entries of one pass in the order they have to be delivered.
+func (c Cell) Order() []int {
+	if c.Pick != nil {
+		return c.Pick
+	}
+	o := make([]int, c.N)
+	for i := range o {
+		o[i] = i
+	}
+	return o
+}
+
+// toIndex maps acquired identities to their position in one pass (-1: not an entry of a pass)
+func toIndex(seq []int, order []int) []int {
+	pos := map[int]int{}
+	for i, id := range order {
+		pos[id] = i
+	}
+	out := make([]int, len(seq))
+	for k, id := range seq {
+		if i, ok := pos[id]; ok {
+			out[k] = i
+		} else {
+			out[k] = -1
+		}
+	}
+	return out
+}
+
+func (c Cell) chosenTags() []string {
+	t := make([]string, len(c.Pick))
+	for i, id := range c.Pick {
+		t[i] = tagOf(id)
+	}
+	return t
 }
 
 // ---------------------------------------------------------------- one cell
@@ -798,7 +997,7 @@ func suspicious(c Cell, o Obs) bool {
 // selfEnding: in stall mode the provider can finish without being cancelled (everything it has to deliver fits
 // into what consumers take plus the channel buffer).
 func selfEnding(c Cell) bool {
-	m, ok := Expected(c.Limit, c.Passes, c.N)
+	m, ok := Expected(c.Limit, c.Passes, c.Eff())
 	return ok && m <= c.Cap+ChanCap(c.Kind)
 }
 
@@ -814,7 +1013,7 @@ type env struct {
 func prepare(c Cell) (*env, string) {
 	e := &env{c: c, io: &cellIO{}}
 	ext, content := FileFor(c)
-	if c.Kind != KURIs {
+	if c.Kind != KURIs && !InMemory(c) {
 		e.path = fmt.Sprintf("/c08/%d/ammo%s", fileSeq.Add(1), ext)
 		if err := afero.WriteFile(FS.Fs, e.path, []byte(content), 0o644); err != nil {
 			return nil, "harness:" + err.Error()
@@ -828,7 +1027,7 @@ func prepare(c Cell) (*env, string) {
 	}
 	e.io.gateAt = int64(c.Gate)
 	e.io.rfailAt, e.io.rsticky, e.io.cfail, e.io.ofail = int64(c.RFail), c.RSticky, c.CFail == 1, c.OFail
-	p, err := construct(c, e.path)
+	p, err := construct(c, e.path, e.io)
 	if err != nil {
 		e.close()
 		return e, classifyErr(err)
@@ -1036,8 +1235,8 @@ func runDrain(e *env) Obs {
 	obs.Cut = cut.Load()
 	obs.Fired = e.io.fired.Load()
 	complete := !obs.Cut && obs.End == "closed"
-	obs.Seq = seqVerdict(append([]int(nil), seq...), c.N, cons, complete)
-	if c.RFail != 0 && strings.HasPrefix(obs.Seq, "bad") && tailVerdict(append([]int(nil), seq...), c.N, cons, complete) {
+	obs.Seq = seqVerdict(toIndex(seq, c.Order()), c.Eff(), cons, complete)
+	if c.RFail != 0 && strings.HasPrefix(obs.Seq, "bad") && tailVerdict(toIndex(seq, c.Order()), c.Eff(), cons, complete) {
 		obs.Seq = "tail"
 	}
 	return obs
@@ -1192,10 +1391,10 @@ func runStall(e *env) Obs {
 	defer mu.Unlock()
 	obs.Delivered = len(seq)
 	obs.Ops = e.io.ops.Load()
-	obs.Seq = seqVerdict(append([]int(nil), seq...), c.N, cons, false)
+	obs.Seq = seqVerdict(toIndex(seq, c.Order()), c.Eff(), cons, false)
 	if cons > 1 {
 		// several consumers: the acquired set is still the first Delivered entries of the cyclic file
-		obs.Seq = seqVerdict(append([]int(nil), seq...), c.N, cons, true)
+		obs.Seq = seqVerdict(toIndex(seq, c.Order()), c.Eff(), cons, true)
 	}
 	return obs
 }
@@ -1283,8 +1482,8 @@ func runEngine(e *env) Obs {
 	obs.Shots = len(rec.seq)
 	obs.Gated = e.io.gated.Load()
 	obs.Ops = e.io.ops.Load()
-	m2, bounded := Expected(c.Limit, c.Passes, c.N)
+	m2, bounded := Expected(c.Limit, c.Passes, c.Eff())
 	complete := bounded && !c.Idle && (c.Shots == 0 || m2 <= c.Shots)
-	obs.Seq = seqVerdict(append([]int(nil), rec.seq...), c.N, c.Cons, complete)
+	obs.Seq = seqVerdict(toIndex(rec.seq, c.Order()), c.Eff(), c.Cons, complete)
 	return obs
 }
